@@ -12,6 +12,11 @@ separators / _ - .), so Format / Parse / ParseName do the splitting themselves. 
   d  MneShape, e DmShape (structure only), f SpmLaws (orthonormal bases, nothing left of a run in its
      own regressors, idempotent, runs independent; exact integers over d^2)
 
+  b' LayoutFrame (every step of every look-up history on ONE layout object), DatasetLaws (a derivative data
+     set on disk: what find_fmriprep_runs finds and which companion files each run reads),
+  e' HrfLaws (design matrix for events on the volume grid as EXACT integer convolution of the HRF table),
+  g  DfLaws (rdms_to_df rows)
+
 and emits every terminal state as a test vector.  spec -> impl: every vector is replayed into
 rsatoolbox.io (BidsMriFile / BidsLayout incl. real directory trees for get_meta / get_events /
 get_table_sibling / get_key, load_rdms + extract_filename_segments on generated .mat / .json files,
@@ -25,6 +30,7 @@ from __future__ import annotations
 import json
 import multiprocessing as mp
 import os
+import time
 
 import numpy as np
 
@@ -32,27 +38,29 @@ from harness import importers as I
 from harness.core import MachineryError
 
 INVS = ['ParseFormat', 'FormatParse', 'LookupFrame', 'LayoutFrame', 'NameRoundTrip', 'MeadowsAssoc', 'MneShape', 'DmShape',
-        'SpmLaws']
+        'SpmLaws', 'HrfLaws', 'DatasetLaws', 'DfLaws']
 WORKERS = 12
 
 
 def cfg(sections, *, vals='BidsValsM', emitmod=40, stims='{3, 4}', maxrdm=2, vols='{10, 40}', spmruns=2,
-        spmpats='{1, 2}', spmemit=1, ldepth=2, lemit=1):
+        spmpats='{1, 2}', spmemit=1, ldepth=2, lemit=1, maxcond=3, codes='MneCodesM', invariants=True):
     secs = '{' + ', '.join(f'"{s}"' for s in sections) + '}'
     return '\n'.join([
         'CONSTANTS', f'  Sections = {secs}', f'  BidsVals <- {vals}', '  DescArgs <- DescArgsM',
         '  SufArgs <- SufArgsM', f'  EmitMod = {emitmod}', f'  StimSizes = {stims}', f'  MaxRdm = {maxrdm}',
         f'  VolSet = {vols}', f'  SpmMaxRuns = {spmruns}', f'  SpmPats = {spmpats}', f'  SpmEmitMod = {spmemit}',
-        f'  LayoutDepth = {ldepth}', f'  LayoutEmitMod = {lemit}', '  NumWords <- NumWordsM', '  PetWords <- PetWordsM', '  AdjWords <- AdjWordsM',
+        f'  LayoutDepth = {ldepth}', f'  LayoutEmitMod = {lemit}', f'  MaxCond = {maxcond}',
+        f'  MneCodes <- {codes}', '  Ds <- DsM', '  NumWords <- NumWordsM', '  PetWords <- PetWordsM', '  AdjWords <- AdjWordsM',
         '  TaskWords <- TaskWordsM', '  ExpWords <- ExpWordsM', '  VerWords <- VerWordsM',
         '  StructWords <- StructWordsM', 'INIT Init', 'NEXT Next'] +
-        [f'INVARIANT {i}' for i in INVS] + ['INVARIANT Emit', 'INVARIANT EmitDone', 'CHECK_DEADLOCK FALSE']) + '\n'
+        ([f'INVARIANT {i}' for i in INVS] if invariants else []) + ['INVARIANT Emit', 'INVARIANT EmitDone', 'CHECK_DEADLOCK FALSE']) + '\n'
 
 
 TRACE_CFG = '\n'.join([
     'CONSTANTS', '  Sections <- Empty', '  BidsVals <- NoVals', '  DescArgs <- Empty', '  SufArgs <- Empty',
     '  EmitMod = 1', '  StimSizes <- Empty', '  MaxRdm = 1', '  VolSet <- Empty', '  SpmMaxRuns = 1',
-    '  SpmPats <- Empty', '  SpmEmitMod = 1', '  LayoutDepth = 0', '  LayoutEmitMod = 1', '  NumWords <- NumWordsT', '  PetWords <- PetWordsT',
+    '  SpmPats <- Empty', '  SpmEmitMod = 1', '  LayoutDepth = 0', '  LayoutEmitMod = 1', '  MaxCond = 1',
+    '  MneCodes <- Empty', '  Ds <- DsNone', '  NumWords <- NumWordsT', '  PetWords <- PetWordsT',
     '  AdjWords <- Empty', '  TaskWords <- Empty', '  ExpWords <- Empty', '  VerWords <- Empty',
     '  StructWords <- Empty', 'SPECIFICATION TSpec', 'CHECK_DEADLOCK FALSE']) + '\n'
 
@@ -118,11 +126,15 @@ def _record_chunk(args):
             elif kind == 'meadows':
                 evs.append(I.record_meadows(rng, root, f'{seed}_{j}', list(PETNAMES)))
             elif kind == 'mne':
-                evs.append(I.record_mne(rng))
+                evs.append(I.record_mne(rng, root, f'{seed}_{j}'))
             elif kind == 'dm':
                 evs.append(I.record_dm(rng))
             elif kind == 'spm':
                 evs.append(I.record_spm(rng))
+            elif kind == 'hrf':
+                evs.append(I.record_hrf(rng))
+            elif kind == 'df':
+                evs.append(I.record_df(rng))
         except Exception as ex:  # the importer raised inside the documented contract
             evs.append({'k': kind, 'raised': f'{type(ex).__name__}: {ex}'})
             break
@@ -143,7 +155,8 @@ CLAUSE_KEY = {
     ('dm', 'colcond'): 'C20/e/design/column-condition', ('dm', 'normalised'): 'C20/e/design/range',
     ('dm', 'confounds'): 'C20/e/design/confound',
     ('mne', 'data'): 'C20/d/epochs/meas', ('mne', 'event'): 'C20/d/epochs/event', ('mne', 'name'): 'C20/d/epochs/name',
-    ('mne', 'time'): 'C20/d/epochs/time'}
+    ('mne', 'time'): 'C20/d/epochs/time', ('mne', 'descriptors'): 'C20/d/epochs/descriptors',
+    ('hrf', 'ncols'): 'C20/e/hrf/shape', ('hrf', 'values'): 'C20/e/hrf/values', ('df', 'rows'): 'C20/g/rdms_to_df/trace'}
 
 
 def record_and_validate(ctx, per_kind, evs_per_trace, corrupt=False):
@@ -229,20 +242,38 @@ def run(ctx):
                        'HRF shape is not specified: a predictor column is identified by equality with the '
                        'single-condition design, tolerance 1e-9',
                        'SPM filter bases are orthonormal (scaled integer Householder columns)']
+    # (name, sections, cfg keywords, fs_every, mat_every, simulate)
     if thorough:
-        runs = [('bids', ['bids'], dict(emitmod=20), 2, 0),
-                ('layout', ['layout'], dict(ldepth=3, lemit=40), 8, 0),
-                ('rest', ['meadows', 'mne', 'dm', 'spm'],
-                 dict(stims='{3, 4}', maxrdm=3, vols='{10, 25, 40}', spmruns=3, spmpats='{1, 2, 3}', spmemit=6), 0, 5)]
+        rest = dict(stims='{3, 4, 5}', maxrdm=3, vols='{10, 25, 40}', spmruns=3, spmpats='{1, 2, 3}', spmemit=2,
+                    maxcond=4, codes='MneCodesL')
+        runs = [('bids3', ['bids'], dict(vals='BidsValsL', emitmod=60), 4, 0, None),
+                ('layout3', ['layout'], dict(vals='BidsValsL', ldepth=3, lemit=12), 40, 0, None),
+                ('meadows', ['meadows', 'df'], rest, 0, 0, None),
+                ('tables', ['mne', 'dm', 'hrf', 'spm', 'dataset'], rest, 0, 5, None)]
+        # long random look-up sessions on one layout: tlc -simulate, three seeds
+        # (TLC evaluates the invariants - and so Emit - on ALL successors of the last step: one in 100 is kept)
+        runs += [(f'layout_sim{k}', ['layout'], dict(vals='BidsValsL' if k % 2 else 'BidsValsM', ldepth=9, lemit=100,
+                                                     invariants=False), 12, 0, (ctx.seed * 3 + k, 2400))
+                 for k in range(3)]
     else:
-        runs = [('all', ['bids', 'layout', 'meadows', 'mne', 'dm', 'spm'], dict(spmemit=1), 8, 7)]
+        runs = [('all', ['bids', 'layout', 'meadows', 'mne', 'dm', 'spm', 'hrf', 'dataset', 'df'],
+                 dict(spmemit=1), 8, 7, None)]
     ctx.exhaustive = True
     totals = {}
-    for name, secs, kw, fs_every, mat_every in runs:
+    for kind, key, what, case in I.check_hrf_table():
+        ctx.violation(key, what, case)
+    for name, secs, kw, fs_every, mat_every, sim in runs:
         # (TLC's -coverage option is not used: its cost statistics make the enumeration of the initial
         #  states of this module run for more than 30 minutes; action coverage is derived below from the
         #  terminal states every action chain must have produced)
-        r = ctx.tlc('MC_Importers', cfg(secs, **kw), name=f'importers_{name}', timeout=1500, workers=WORKERS)
+        if sim is None:
+            r = ctx.tlc('MC_Importers', cfg(secs, **kw), name=f'importers_{name}', timeout=1700,
+                        workers=16 if thorough else WORKERS)
+        else:
+            r = ctx.tlc('MC_Importers', cfg(secs, **kw), name=f'importers_{name}', timeout=600, workers=8,
+                        simulate=f'num={sim[1] // 8}', depth=kw['ldepth'] + 1, seed=sim[0])
+            if r.n_emitted < sim[1] // 4:
+                raise MachineryError(f'simulation emitted only {r.n_emitted} histories')
         if not r.n_emitted:
             raise MachineryError('TLC emitted no test vectors')
         seen = set()
@@ -252,7 +283,9 @@ def run(ctx):
                 ctx.sample({k: rec[k] for k in rec if k not in ('looks', 'files', 'paths')}, cap=8)
             if len(seen) == len(secs):
                 break
+        t_replay = time.time()
         per = replay_all(ctx, r, name, fs_every, mat_every)
+        ctx.extra.setdefault('replay_wall_s', {})[name] = round(time.time() - t_replay, 1)
         for s, (nv, ne) in per.items():
             t = totals.setdefault(s, [0, 0])
             t[0] += nv
@@ -263,7 +296,7 @@ def run(ctx):
         chains = {'bids': ['BidsFormat', 'BidsParse', 'BidsLookup'], 'bids/outside': ['BidsReject'],
                   'layout': ['LayoutLookup'],
                   'meadows': ['MeadowsName', 'MeadowsLoad'], 'mne': ['MneMap'], 'dm': ['DmBuild'],
-                  'spm': ['SpmFilter']}
+                  'spm': ['SpmFilter'], 'hrf': ['HrfBuild'], 'dataset': ['DatasetFind'], 'df': ['DfRows']}
         for s, acts in chains.items():
             for a in acts:
                 o = ctx.coverage_actions.setdefault(a, [0, 0])
@@ -273,8 +306,9 @@ def run(ctx):
             raise MachineryError('vacuous: no entity combination outside the contract was emitted')
     ctx.extra['vectors_replayed'] = {s: {'vectors': v[0], 'calls_compared': v[1]} for s, v in totals.items()}
     # implementation -> specification
-    ntr = 60 if thorough else 12
-    n = record_and_validate(ctx, {'bids': 3 * ntr, 'layout': 2 * ntr, 'meadows': 2 * ntr, 'mne': ntr, 'dm': ntr, 'spm': 2 * ntr},
+    ntr = 150 if thorough else 12
+    n = record_and_validate(ctx, {'bids': 3 * ntr, 'layout': 2 * ntr, 'meadows': 2 * ntr, 'mne': ntr, 'dm': ntr,
+                                  'spm': 2 * ntr, 'hrf': ntr, 'df': ntr},
                             6 if thorough else 4)
     ctx.extra['recorded_traces_validated'] = n
     selftest_binding(ctx)
